@@ -190,4 +190,17 @@ int nni_list_active(nni_list *l, void *item)
 	}
 	return (g_aio_active); /* an untracked middle member, or not a member: arbitrary */
 }
+#ifdef VP_SV_LIST_NEXT
+/* iteration (NNI_LIST_FOREACH): model limit of at most two members, head then last appended */
+void *nni_list_next(const nni_list *l, void *item)
+{
+	vp_aioq *q = vp_which(l);
+	__CPROVER_assert(q->n <= 2, "list iteration: at most two members (model limit)");
+	if (q->n == 2 && (nni_aio *) item == q->head) {
+		__CPROVER_assert(q->tail != NULL, "list iteration: the second member is tracked");
+		return (q->tail);
+	}
+	return (NULL);
+}
+#endif
 #endif
